@@ -157,12 +157,12 @@ class Subs:
             return self.elem_of(base, env)
         if isinstance(base, RegDict):
             key = S.const_value(env, idx) if isinstance(idx, Str) else None
-            if key is not None and ('haskey', id(base), key) in env.facts:
+            if key is not None and ('haskey', base.rid, key) in env.facts:
                 return S.any_str(env)
             if key is None:
                 self.ctx.raise_('KeyError', node, env, 'registry %s subscripted with a non-constant key' % base.name)
                 return S.any_str(env)
-            given = tuple(sorted(f[2] for f in env.facts if isinstance(f, tuple) and len(f) == 3 and f[0] == 'haskey' and f[1] == id(base)))
+            given = tuple(sorted(f[2] for f in env.facts if isinstance(f, tuple) and len(f) == 3 and f[0] == 'haskey' and f[1] == base.rid))
             self.ctx.raise_('KeyError', node, env, 'registry %s: property %r must be present%s' % (base.name, key, (' when %s is' % ','.join(given)) if given else ''),
                             reg=(base.name, key, given))
             return S.any_str(env)
@@ -203,7 +203,7 @@ class Subs:
                 if missing and not strict:
                     vals.append(default)
         if vals is None:
-            if strict and (id(d), id(key)) not in env.facts:
+            if strict and ('member', id(d), skey(key)) not in env.facts:
                 self.ctx.raise_('KeyError', node, env, 'key %r not provably in dict' % (key,))
             vals = list(d.values()) + ([default] if not strict else [])
         res = None
